@@ -627,6 +627,38 @@ class SymStr:
     def isascii(self):
         return sand(*[c < 128 for c in self.items])
 
+    def partition(self, sep):
+        i = concretize(self.find_sym(SymStr.of(sep)))      # one case per possible position of the separator
+        if i < 0:
+            return self, "", ""
+        return SymStr.mk(self.items[:i]), sep, SymStr.mk(self.items[i + len(sep):])
+
+    def rpartition(self, sep):
+        i = concretize(self.find_sym(SymStr.of(sep), reverse=True))
+        if i < 0:
+            return "", "", self
+        return SymStr.mk(self.items[:i]), sep, SymStr.mk(self.items[i + len(sep):])
+
+    def split(self, sep=None, maxsplit=-1):
+        if sep is None:
+            raise SxUnsupported("str.split() on whitespace for symbolic text")
+        out, rest, n = [], self, 0
+        while maxsplit < 0 or n < maxsplit:
+            if type(rest) is str:
+                parts = rest.split(sep, 1)
+                if len(parts) == 1:
+                    break
+                head, _, tail = parts[0], sep, parts[1]
+            else:
+                head, s_, tail = rest.partition(sep)
+                if s_ == "":
+                    break
+            out.append(head)
+            rest = tail
+            n += 1
+        out.append(rest)
+        return out
+
     def strip(self, chars=None):
         # whitespace stripping: fork on each end
         items = list(self.items)
